@@ -350,3 +350,61 @@ def c12(root, pats, flags, exclude, slots):
 
 def c12_classify(params, tree, res):
     return None
+
+
+# ---------------------------------------------------------------------------------------------------------
+# C13: multi-pattern glob is the de-duplicated union minus exclusions
+
+def c13(root, combined, pieces, excl, flags, use_kw, slots):
+    """combined: what is handed to glob (list or SPLIT/BRACE string, exclusions inline unless use_kw);
+    pieces: the expanded inclusion patterns in order; excl: exclusion patterns."""
+    from wcmatch import glob as G
+    viol = []
+    kw = {'flags': flags, 'root_dir': root}
+    if use_kw and excl:
+        kw['exclude'] = list(excl)
+    full = _call(G.glob, combined, **kw)
+    if isinstance(full, str):
+        return {'viol': [f'glob raised {full}'], 'obs': full}
+    if any(r.count('/') > 20 for r in full):
+        return {'viol': [], 'obs': None, 'eloop': True}
+    sflags = flags & ~(G.NEGATE | G.NEGATEALL | G.SPLIT | G.BRACE | G.MINUSNEGATE | G.NOUNIQUE)
+    ci = bool(flags & G.IGNORECASE) and not flags & G.CASE
+    singles = []
+    for p in pieces:
+        r = _call(G.glob, p, flags=sflags | G.NOUNIQUE, root_dir=root)
+        if isinstance(r, str):
+            return {'viol': [f'single glob({p!r}) raised {r}'], 'obs': r}
+        singles.append(r)
+    if not pieces and flags & G.NEGATEALL and excl:
+        r = _call(G.glob, '**', flags=sflags | G.GLOBSTAR, root_dir=root)
+        singles.append(r if isinstance(r, list) else [])
+
+    def excluded(x):
+        isdir = os.path.isdir(os.path.join(root, x))
+        name = x if x.endswith('/') or not isdir else x + '/'
+        for e in excl:
+            if G.globmatch(name, e, flags=(sflags | G.DOTGLOB) & ~G.NODIR):
+                return True
+        if flags & G.NODIR and isdir:
+            return True
+        return False
+
+    expect_concat = [x for r in singles for x in r if not excluded(x)]
+    norm = (lambda x: strip_sep(x).lower()) if ci else strip_sep
+    want = {norm(x) for x in expect_concat}
+    got = {norm(x) for x in full}
+    if got != want:
+        viol.append(f'glob({combined!r}) = {sorted(got)} but union of single patterns minus exclusions = {sorted(want)}')
+    if flags & G.NOUNIQUE:
+        if [strip_sep(x) for x in full] != [strip_sep(x) for x in expect_concat]:
+            viol.append(f'NOUNIQUE result {full} is not the concatenation of the single results {expect_concat}')
+    else:
+        keys = [x.lower() if ci else x for x in full]
+        if len(keys) != len(set(keys)):
+            viol.append(f'duplicate paths in {full}')
+    return {'viol': viol, 'obs': sorted(full)}
+
+
+def c13_classify(params, tree, res):
+    return None
